@@ -1,6 +1,7 @@
 import MockeryModel.Config.Resolve
 import MockeryModel.Generated.ResolveFacts
 import MockeryLemmas.Resolve
+import MockeryLemmas.ResolveT
 /-!
 # C11 — Templated config values resolve correctly, to a fixpoint, and always terminate
 
@@ -142,5 +143,31 @@ example :
     let f : String → String := fun v => if v == "A" then "B" else if v == "B" then "C" else v
     resolve (fun v => .ok (f v)) ["A", "x"] = .ok ["C", "x"] := by rfl
 example : resolve (fun v => .ok (v ++ "x")) ["a"] = .error .infiniteLoop := by rfl
+
+
+/-! ## one parameter of a round is the translated source -/
+
+/-- **model = translation** (the inner loop of `Config.ParseTemplates`, translated from config/config.go on every run): the
+treatment of one templated parameter in a round – parse, execute, store what was rendered, note a change – is the
+interpretation of the translated loop body; a failure of either call ends the round with that error and leaves the value
+alone. (`render` fails only the way the two calls can fail.) -/
+theorem round_step_is_the_translated_source (render : String → Except RErr String) (v : String) (vs : List String)
+    (herr : ∀ e, render v = .error e → e = .parse ∨ e = .exec) :
+    let r := render v
+    let st := runParam (renderedOf r) v
+      (Generated.Merge.parseTemplatesEntryEffects (parsedFlag r) (executedFlag r) (renderedOf r != v))
+    round render (v :: vs) =
+      match st.err with
+      | some e => .error e
+      | none => match round render vs with
+        | .error e => .error e
+        | .ok (vs', ch) => .ok (st.value :: vs', ch || st.changes) :=
+  round_cons_translated render v vs herr
+
+/-- the translated loop body, spelled out -/
+example : Generated.Merge.parseTemplatesEntryEffects none (some ()) true = ["error: parse"] ∧
+    Generated.Merge.parseTemplatesEntryEffects (some ()) none true = ["error: execute"] ∧
+    Generated.Merge.parseTemplatesEntryEffects (some ()) (some ()) true = ["store rendered", "changesMade := true"] ∧
+    Generated.Merge.parseTemplatesEntryEffects (some ()) (some ()) false = ["store rendered"] := by decide
 
 end Mockery.C11
